@@ -27,6 +27,15 @@ Theorem c17_genomes_only_grow : forall t fo gs ops x,
 Proof. exact genomes_monotone. Qed.
 Print Assumptions c17_genomes_only_grow.
 
+(* ... and only ancestral ones: the whole-dataset profile creates genomes of internal nodes only (finding F8
+   repaired: no extant genome for a species without genes), a lateral comparison the genome of the MRCA of its
+   arguments, every other call none *)
+Theorem c17_only_ancestral_genomes_created : forall t fo s o x,
+  In x (ss_genomes (fst (sstep t fo s o))) ->
+  In x (ss_genomes s) \/ (o = OProfileFull /\ is_leaf t x = false) \/ (exists g1 g2, o = OLateral g1 g2 /\ x = lcs g1 g2).
+Proof. exact new_genomes. Qed.
+Print Assumptions c17_only_ancestral_genomes_created.
+
 Definition m0 : hmeta := {| m_id := None; m_og := None; m_props := []; m_scores := []; m_synth := false |}.
 Definition tr : stree :=
   SNode "R" [SNode "X" []; SNode "M" [SNode "E" [SNode "H" []; SNode "P" []]; SNode "C" []]].
@@ -35,8 +44,11 @@ Definition fam : hog :=
                  (Some 0, HHog 3 [0; 1] m0 [(None, HGene "h2" [0; 0; 1]); (None, HGene "p2" [1; 0; 1])]);
                  (None, HGene "c1" [1; 1])].
 Definition fo0 : forest := {| fo_tops := [fam]; fo_singles := [] |}.
+(* X is a species of the tree without any gene: the profile gives it no genome (and no map) *)
 Example c17_nonvacuous :
   let ops := [OLateral [0; 0; 1] [1; 1]; OVertical [0; 1] [0; 0; 1]; OProfileFull; OVertical [0; 0; 1] [1]; OIham 0; OClustering [0; 1]] in
-  List.length (ss_maps (srun tr fo0 ops (sinit [[1]]))) = 7 /\
-  List.length (ss_genomes (srun tr fo0 ops (sinit [[1]]))) = 7.
-Proof. vm_compute. split; reflexivity. Qed.
+  let s0 := sinit [[1]; [0; 1]; [0; 0; 1]; [1; 0; 1]; [1; 1]] in
+  List.length (ss_maps (srun tr fo0 ops s0)) = 6 /\
+  ss_genomes (srun tr fo0 ops s0) = [[1]; [0; 1]; [0; 0; 1]; [1; 0; 1]; [1; 1]; []] /\
+  is_leaf tr [0] = true.
+Proof. vm_compute. repeat split; reflexivity. Qed.
